@@ -71,15 +71,16 @@ func (l *LineFilterPlanner) Process(ctx *shared.PlannerContext) (sql.ISelect, er
 }
 
 func (l *LineFilterPlanner) doLike(likeOp string) (sql.SQLCondition, error) {
-	enqVal, err := l.enquoteStr(l.Val)
+	// Escape the LIKE metacharacters of the raw text first, then quote the whole pattern once.
+	pattern := strings.Replace(l.Val, "\\", "\\\\", -1)
+	pattern = strings.Replace(pattern, "%", "\\%", -1)
+	pattern = strings.Replace(pattern, "_", "\\_", -1)
+	enqVal, err := l.enquoteStr("%" + pattern + "%")
 	if err != nil {
 		return nil, err
 	}
-	enqVal = strings.Trim(enqVal, `'`)
-	enqVal = strings.Replace(enqVal, "%", "\\%", -1)
-	enqVal = strings.Replace(enqVal, "_", "\\_", -1)
 	return sql.Eq(
-		sql.NewRawObject(fmt.Sprintf("%s(samples.string, '%%%s%%')", likeOp, enqVal)), sql.NewIntVal(1),
+		sql.NewRawObject(fmt.Sprintf("%s(samples.string, %s)", likeOp, enqVal)), sql.NewIntVal(1),
 	), nil
 }
 
